@@ -86,7 +86,7 @@ def generate(rng, tier):
     m = Model()
     base = "c"
     feats = set(rng.subset(["modrs", "path", "inline", "cfg_if", "cfg_match", "cfg_attr_path", "decoys", "skipmod",
-                            "innerskip", "ignore", "generated", "twice", "stemdir", "adversarial", "symlinkmod"], 45))
+                            "innerskip", "ignore", "generated", "twice", "stemdir", "adversarial", "symlinkmod", "symlinkdir"], 45))
     lane = rng.choice(["normal"] * 7 + ["skip_children", "stdin", "fault"])
     if lane == "fault":
         feats.discard("adversarial")  # a decoy at the fallback location would make a missing module resolvable
@@ -262,6 +262,23 @@ def generate(rng, tier):
         for f in (os.path.join(pa, "mod.rs"), os.path.join(pa, "slin.rs"), os.path.join(pb, "slin.rs")):
             m.status[f] = "E"
         m.feats.add("symlinkmod")
+    # a module directory that is a symbolic link to a directory elsewhere, whose mod.rs climbs out with `..`: the
+    # operating system resolves `link/..` to the parent of the link's *target* (as the compiler does), not to the
+    # directory holding the link, where a same-named file nobody declares sits
+    if "symlinkdir" in feats and "ignore" not in feats and root_status == "E" and lane != "stdin":
+        sh = os.path.join(base, "shared_sl")
+        m.files[os.path.join(sh, "sub", "mod.rs")] = '#[path = "../slcommon.rs"]\nmod slcommon;\n' + body()
+        m.files[os.path.join(sh, "slcommon.rs")] = body()
+        m.files[os.path.join(childdir, "sld")] = {"symlink": os.path.relpath(os.path.join(sh, "sub"), childdir)}
+        m.files[root] = insert_decls(m.files[root], "mod sld;\n")
+        m.status[os.path.join(sh, "sub", "mod.rs")] = "E"
+        m.status[os.path.join(sh, "slcommon.rs")] = "E"
+        if rng.chance(70):
+            d = os.path.join(childdir, "slcommon.rs")
+            m.files[d] = gen_rust.tiny_unformatted("lexical_decoy")
+            m.status[d] = "X"
+            m.why[d] = "declared by no module (where folding `link/..` lexically would look)"
+        m.feats.add("symlinkdir")
     # a file reached twice (same spelling / different spelling)
     twice = None
     if "twice" in feats and leafs and root_status == "E":
